@@ -79,14 +79,19 @@ def build(M, n, empty_ok=False, at_end_ok=True):
     S.tt = z3.BitVec('tt', 8)
     S.rt = z3.BitVec('rt', 8)
     # valid position, valid scope end (a valid position or the terminal (48,49)), position at or before the end
-    cons += [z3.ULT(S.turn, S.river), z3.ULE(S.river, 48),
-             z3.ULT(S.tt, S.rt), z3.Or(z3.ULE(S.rt, 48), z3.And(S.tt == 48, S.rt == 49)),
-             z3.Or(z3.ULT(S.turn, S.tt), z3.And(S.turn == S.tt, z3.ULE(S.river, S.rt)))]
+    cons += position_invariant(S.turn, S.river, S.tt, S.rt)
     S.idx_bits = None
     S.cons = cons
     S.vecs = vecs
     S.n = n
     return S
+
+
+def position_invariant(turn, river, tt, rt):
+    """valid position (turn < river <= 48) or the terminal (48,49); valid scope end; position at or before the end"""
+    return [z3.Or(z3.And(z3.ULT(turn, river), z3.ULE(river, 48)), z3.And(turn == 48, river == 49)),
+            z3.ULT(tt, rt), z3.Or(z3.ULE(rt, 48), z3.And(tt == 48, rt == 49)),
+            z3.Or(z3.ULT(turn, tt), z3.And(turn == tt, z3.ULE(river, rt)))]
 
 
 def entry_at(S, p, j, cons):
@@ -223,8 +228,7 @@ def build_from_ctor(M, src, flop, ranges):
     S.entries = [list(v.items) for v in g('player_entries').items]
     S.L = [z3.BitVecVal(len(e), 64) for e in S.entries]
     S.turn, S.river, S.tt, S.rt = z3.BitVec('turn', 8), z3.BitVec('river', 8), z3.BitVec('tt', 8), z3.BitVec('rt', 8)
-    S.cons += [z3.ULT(S.turn, S.river), z3.ULE(S.river, 48), z3.ULT(S.tt, S.rt), z3.Or(z3.ULE(S.rt, 48), z3.And(S.tt == 48, S.rt == 49)),
-               z3.Or(z3.ULT(S.turn, S.tt), z3.And(S.turn == S.tt, z3.ULE(S.river, S.rt)))]
+    S.cons += position_invariant(S.turn, S.river, S.tt, S.rt)
     for fld, ty in fields:
         k = S.fields.index(fld)
         if fld in ('turn_to', 'river_to', 'current_turn_index', 'current_river_index'):
@@ -403,7 +407,7 @@ def run_step(M, src, n, empty_ok=False, extra_cons=(), uf_hand=True, prebuilt=No
         if isinstance(v, tuple) and v[0] == 'PANIC':
             outs.append(dict(kind='PANIC', pc=r.pc, value=v[1], where=v[2], state=None))
         elif isinstance(v, tuple) and v[0] == 'CUT':
-            outs.append(dict(kind='REC', pc=r.pc, value='loop', state=v[1]))
+            outs.append(dict(kind='REC', pc=r.pc, value='loop', state=v[1], cutframe=getattr(r, 'cutframe', None)))
         elif isinstance(v, Agg) and v.name == 'REC':
             outs.append(dict(kind='REC', pc=r.pc, value='self-call', state=v.f[0]))
         elif v.var == 'None':
@@ -412,6 +416,127 @@ def run_step(M, src, n, empty_ok=False, extra_cons=(), uf_hand=True, prebuilt=No
             outs.append(dict(kind='Some', pc=r.pc, value=v.f[0], state=itv))
     S.cut_head = outer
     return S, outs
+
+
+def preloop_locals(f, head, succ):
+    """locals assigned on the way from the function entry to the loop head (outside the loop): candidates for loop-carried state"""
+    seen, work, out = set(), [0], set()
+    while work:
+        b = work.pop()
+        if b in seen or b == head:
+            continue
+        seen.add(b)
+        for st_ in f.blocks.get(b, []):
+            m = re.match(r'^_(\d+) = ', st_)
+            if m:
+                out.add(int(m.group(1)))
+        for w_ in succ.get(b, []):
+            work.append(w_)
+    return sorted(out)
+
+
+def reentry_candidates(M, S, outs, cap=5):
+    """which 'loop' outcomes to continue from: one for every distinct value of the locals that were assigned before the loop"""
+    f_next = fn(M, '<FlopExhaustiveEvaluatorIterator as Iterator>::next')
+    heads, succ = loop_heads(f_next)
+    pre = preloop_locals(f_next, S.cut_head, succ) if S.cut_head is not None else []
+    recs = [o for o in outs if o['kind'] == 'REC' and o.get('value') == 'loop' and o.get('cutframe') is not None]
+    if not recs:
+        return [], pre
+    groups = {}
+    for o in recs:
+        sig = repr([(i, repr(o['cutframe'].loc[i].v)[:300]) for i in pre if i in o['cutframe'].loc])
+        groups.setdefault(sig, o)
+    return list(groups.values())[:cap], pre
+
+
+def reentry_setup(S):
+    """a second symbolic iterator state (fresh position and odometer; same flop, deck, entry lists and scope end) for a frame that
+    re-enters the skip loop: any state the previous iteration may have left, INCLUDING the scope end / terminal position"""
+    S2 = Setup()
+    S2.__dict__.update({k: v for k, v in S.__dict__.items() if k not in ('turn', 'river', 'idx', 'cons', 'it', 'spec_axioms')})
+    S2.turn, S2.river = z3.BitVec('turn_r', 8), z3.BitVec('river_r', 8)
+    S2.idx = [z3.BitVec(f'ix{p}_r', S.idx_bits) for p in range(S.n)]
+    S2.cons = position_invariant(S2.turn, S2.river, S.tt, S.rt)
+    for p in range(S.n):
+        w = S.idx_bits
+        i64 = z3.ZeroExt(64 - w, S2.idx[p]) if w < 64 else S2.idx[p]
+        S2.cons.append(z3.Or(z3.ULT(i64, S.L[p]), z3.And(S.L[p] == 0, S2.idx[p] == 0)))
+    reference(S2)
+    return S2
+
+
+def run_reentry(M, src, S, outcome, uf_hand=True):
+    """continue ONE more trip round the skip loop from the loop head, keeping the frame's locals exactly as the first trip left them
+    (loop-carried state) but with the iterator in an arbitrary re-entry state.  Returns (S2, outcomes)."""
+    fr0 = outcome.get('cutframe')
+    if fr0 is None:
+        return None, []
+    S2 = reentry_setup(S)
+    fr = copy.deepcopy(fr0)
+    fr.ip = 0
+    fr.headvisits = 0      # the start of this run is the first arrival at the loop head; the next one cuts
+    itref = fr.loc[1].v
+    base = itref
+    while isinstance(mirx.getp(base.cell, base.path), Ref):
+        base = mirx.getp(base.cell, base.path)
+    itv = mirx.getp(base.cell, base.path)
+    w = S.idx_bits
+
+    def put(name, val):
+        itv.f[S.fields.index(name)] = val
+    tw = field(S, itv, 'current_turn_index').bits
+    put('current_turn_index', Int(z3.ZeroExt(tw - 8, S2.turn) if tw > 8 else S2.turn, tw))
+    rw = field(S, itv, 'current_river_index').bits
+    put('current_river_index', Int(z3.ZeroExt(rw - 8, S2.river) if rw > 8 else S2.river, rw))
+    put('current_player_indexes', PyObj('vec', items=[Int(i, w) for i in S2.idx]))
+    uf = [1000]
+
+    def made_hand(M_, st, args):
+        uf[0] += 1
+        v = z3.BitVec(f'mh{uf[0]}', 16)
+        st.pc.append(z3.And(z3.UGE(v, 1), z3.ULE(v, 7462)))
+        return Agg('MadeHand', [Int(v, 16)])
+    if uf_hand:
+        M.overrides['<[Card; 7] as Into<MadeHand>>::into'] = made_hand
+        M.overrides['<MadeHand as From<[Card; 7]>>::from'] = made_hand
+    M.overrides['<FlopExhaustiveEvaluatorIterator as Iterator>::next'] = lambda M_, st, args: Agg('REC', [copy.deepcopy(deref(args[0]))])
+    f_next = fr.fn
+    M.cut = (f_next.name, S.cut_head)
+    st = State()
+    # only the representation invariant is kept: the first trip's path condition is dropped (carried locals keep their terms, now
+    # unconstrained: an over-approximation of the states a second trip can start from)
+    st.pc = list(S.cons) + list(S2.cons)
+    st.frames = [fr]
+    res = M.run(st)
+    M.cut = None
+    outs = []
+    for r in res:
+        v = r.result
+        itv2 = None
+        try:
+            itv2 = deref(r.cutframe.loc[1].v) if getattr(r, 'cutframe', None) else (r.rootargs[0].cell.v if getattr(r, 'rootargs', None) else None)
+        except Exception:
+            itv2 = None
+        if isinstance(v, tuple) and v[0] == 'PANIC':
+            outs.append(dict(kind='PANIC', pc=r.pc, value=v[1], where=v[2], state=None))
+        elif isinstance(v, tuple) and v[0] == 'CUT':
+            outs.append(dict(kind='REC', pc=r.pc, value='loop', state=v[1]))
+        elif isinstance(v, Agg) and v.name == 'REC':
+            outs.append(dict(kind='REC', pc=r.pc, value='self-call', state=v.f[0]))
+        elif v.var == 'None':
+            outs.append(dict(kind='None', pc=r.pc, value=None, state=deref(fr0.loc[1].v) if False else _final_iter(r, base)))
+        else:
+            outs.append(dict(kind='Some', pc=r.pc, value=v.f[0], state=_final_iter(r, base)))
+    return S2, outs
+
+
+def _final_iter(r, base):
+    """the iterator value at the end of a path that started from a copied frame: the root frame argument still points at it"""
+    try:
+        return deref(r.rootargs[0])
+    except Exception:
+        return None
 
 
 # ------------------------------------------------------------------------------------------------ obligations
@@ -443,7 +568,7 @@ def evaluate(S, outs, which, timeout_s=300):
 
     def chk(name, o, prop):
         c, m, dt = decide(o['pc'] + ax, prop, timeout_s)
-        res.append(dict(ob=name, status=c, kind=o['kind'], model=m, solver_s=dt, out=o))
+        res.append(dict(ob=name, status=c, kind=o['kind'], model=m, solver_s=dt, out=o, negprop=z3.Not(prop) if c == 'sat' else None))
     for o in outs:
         k = o['kind']
         if k == 'PANIC':
@@ -563,9 +688,15 @@ def model_to_history(S, m, maxprod=3_000_000):
 def native_enumerate_bad(bins, hist, profiles=('debug', 'release')):
     """run the scenario natively on a one-position window; returns (description of the discrepancy or '', raw)"""
     t, r = hist['position']
-    nt, nr = (t, r + 1) if r < 48 else (t + 1, t + 2)
-    if (nt, nr) == (48, 50) or nt >= 48:
-        nt, nr = 48, 49
+
+    def nxt(t_, r_):
+        if (t_, r_) == (48, 49):
+            return 48, 49
+        n_ = (t_, r_ + 1) if r_ < 48 else (t_ + 1, t_ + 2)
+        return (48, 49) if n_[0] >= 48 else n_
+    if (t, r) == (48, 49):
+        t, r = 47, 48        # a state standing at the terminal position: replay the last real position and what follows
+    nt, nr = nxt(*nxt(t, r))      # a window of two positions: the one in the witness and its successor
     scope = f'{t},{r},{nt},{nr}'
     raws = []
     for prof in profiles:
